@@ -33,6 +33,47 @@ type snapshot struct {
 	origin int
 }
 
+// genChurnCase: many distinct keys set and deleted again (every Delete removes a present key), few live keys at
+// any time — size- and count-dependent behaviour inside the store (compaction, caches) gets exercised.
+func genChurnCase(c *Cfg, i int) *StoreCase {
+	rg := c.Rng("c14churn", i)
+	cs := &StoreCase{Family: "churn"}
+	nz := len(zoo.Fixed())
+	live := []int{}
+	n := 120 + rg.IntN(81)
+	for j := 0; j < n; j++ {
+		if len(live) > 0 && (rg.IntN(2) == 0 || len(live) > 6) {
+			x := rg.IntN(len(live))
+			cs.Steps = append(cs.Steps, StoreStep{Op: "delete", Key: live[x]})
+			live = append(live[:x], live[x+1:]...)
+			continue
+		}
+		k := len(storeKeys) + rg.IntN(60)
+		cs.Steps = append(cs.Steps, StoreStep{Op: "set", Key: k, Val: rg.IntN(nz)})
+		dup := false
+		for _, l := range live {
+			if l == k {
+				dup = true
+			}
+		}
+		if !dup {
+			live = append(live, k)
+		}
+		if rg.IntN(25) == 0 {
+			cs.Steps = append(cs.Steps, StoreStep{Op: "getall"})
+		}
+	}
+	return cs
+}
+
+// keyName maps a key index to a key: the fixed hostile keys first, then "c<N>".
+func keyName(i int) string {
+	if i < len(storeKeys) {
+		return storeKeys[i]
+	}
+	return fmt.Sprintf("c%d", i)
+}
+
 func genStoreCase(c *Cfg, i int, maxLen int) *StoreCase {
 	rg := c.Rng("c14", i)
 	n := 1 + rg.IntN(maxLen)
@@ -80,7 +121,7 @@ func runStoreCaseWith(cs *StoreCase, z []zoo.Named, probe storeProbe) (key, deta
 		}
 	}()
 	for si, st := range cs.Steps {
-		k := storeKeys[st.Key%len(storeKeys)]
+		k := keyName(st.Key)
 		v := z[st.Val%len(z)].V
 		stats["op."+st.Op]++
 		switch st.Op {
@@ -208,7 +249,8 @@ func runStoreCaseWith(cs *StoreCase, z []zoo.Named, probe storeProbe) (key, deta
 		if s.Len() != len(ref) {
 			return fail("len", "step %d (%s): Len()=%d, reference map has %d entries", si, st.Op, s.Len(), len(ref))
 		}
-		for _, kk := range append([]string{"never-set"}, storeKeys...) {
+		probeKeys := append([]string{"never-set", k}, storeKeys...)
+		for _, kk := range probeKeys {
 			rv, rok := ref[kk]
 			gv, gok := s.Get(kk)
 			if gok != rok || s.Has(kk) != rok {
@@ -271,9 +313,12 @@ func init() {
 
 func runC14(c *Cfg) {
 	r := c.Rep
-	n := c.Pick(4000, 100000)
+	n := c.Pick(8000, 150000)
 	parallel(c, n, func(i int) {
 		cs := genStoreCase(c, i, 200)
+		if i%5 == 4 {
+			cs = genChurnCase(c, i)
+		}
 		key, detail, stats := runStoreCase(cs)
 		r.Eval()
 		for k, v := range stats {
@@ -282,7 +327,11 @@ func runC14(c *Cfg) {
 		if key != "" {
 			r.Violate("C14", "C14:"+key, detail, cs)
 		}
-		if stats["snapshot_mutations"] > 0 || stats["snapshots"] > 1 {
+		if cs.Family == "churn" {
+			r.Count("churn.sequences", 1)
+			r.Count("churn.effective_deletes", int64(stats["op.delete"]))
+		}
+		if stats["snapshot_mutations"] > 0 || stats["snapshots"] > 1 || cs.Family == "churn" {
 			b, _ := json.Marshal(cs.Steps)
 			r.Nontrivial(string(b))
 		}
